@@ -76,23 +76,7 @@ func run(r *evid.Run) {
 	}
 	lap("cpu_s_prologue")
 
-	// half A
 	xyz := []string{"x", "y", "x/z"}
-	if want("A") {
-		spaces := []reqSpace{
-			{n: 2, dirs: xyz, wktMasks: allMasks(2), filterWkt: map[int]bool{0: true, 1: true, 2: true, 3: true}},
-			{n: 3, dirs: xyz, wktMasks: allMasks(3), filterWkt: map[int]bool{0: true, 5: true}},
-		}
-		if !r.Quick() {
-			spaces[1].filterWkt = map[int]bool{0: true, 1: true, 2: true, 4: true, 5: true, 7: true}
-			spaces = append(spaces,
-				reqSpace{n: 4, dirs: xyz, wktMasks: []int{0, 15}},
-				reqSpace{n: 4, dirs: []string{"x", "y"}, wktMasks: []int{1, 2, 4, 8}},
-			)
-		}
-		runRequests(r, spaces)
-		lap("cpu_s_half_A")
-	}
 
 	// half B
 	if want("B") {
@@ -119,6 +103,25 @@ func run(r *evid.Run) {
 		lap("cpu_s_half_C_responses")
 		runCLIRequests(r, scratch, bin, layoutList)
 		lap("cpu_s_half_C_requests")
+	}
+
+	// half A (last: it is the most expensive one, so a deadline cuts it and not the others)
+	if want("A") {
+		spaces := []reqSpace{
+			{n: 2, dirs: xyz, wktMasks: allMasks(2), filterWkt: map[int]bool{0: true, 1: true, 2: true, 3: true}},
+			// quick: no file / one file / two files / every file imports the WKT and carries the options
+			{n: 3, dirs: xyz, wktMasks: []int{0, 1, 5, 7}, filterWkt: map[int]bool{0: true, 5: true}},
+		}
+		if !r.Quick() {
+			spaces[1].wktMasks = allMasks(3)
+			spaces[1].filterWkt = map[int]bool{0: true, 1: true, 2: true, 4: true, 5: true, 7: true}
+			spaces = append(spaces, reqSpace{n: 4, dirs: xyz, wktMasks: []int{0, 1, 8, 15}, dagClass: "monotone"})
+		}
+		if os.Getenv("VERIF_C17_A_SMALL") != "" { // debugging aid for mutant runs: a subset of the quick space
+			spaces = []reqSpace{spaces[0], {n: 3, dirs: xyz, wktMasks: []int{0, 5}, filterWkt: map[int]bool{5: true}}}
+		}
+		runRequests(r, spaces)
+		lap("cpu_s_half_A")
 	}
 }
 
